@@ -27,15 +27,19 @@ theorem sumChecked_ok : ∀ (l : List Int) (acc v : Int), sumChecked l acc = .ok
       rw [this, (ck_ok hc).1]
       simp [List.sum_cons]; omega
 
-/-- Stack invariant of the walk at nesting level `depth` below blocks whose offsets are `base`
-    (innermost first, the initial 0 at the bottom): deeper entries may still be on the stack (they
-    are popped at the next object), the rest of the stack is `base`. -/
-structure MMInv (mm : MinMax) (depth : Nat) (base : List Int) : Prop where
+/-- the lowest / highest base the enclosing blocks' repeats can produce -/
+def loSum (base : List (Int × Int)) : Int := (base.map (·.1)).sum
+def hiSum (base : List (Int × Int)) : Int := (base.map (·.2)).sum
+
+/-- Stack invariant of the walk at nesting level `depth` below blocks whose (lowest, highest)
+    offsets are `base` (innermost first, the initial (0, 0) at the bottom): deeper entries may
+    still be on the stack (they are popped at the next object), the rest of the stack is `base`. -/
+structure MMInv (mm : MinMax) (depth : Nat) (base : List (Int × Int)) : Prop where
   ge : depth ≤ mm.lastDepth
   len : mm.offsets.length = mm.lastDepth + 1
   tail : mm.offsets.drop (mm.lastDepth - depth) = base
 
-theorem popWhile_spec (mm : MinMax) (depth : Nat) (base : List Int) (h : MMInv mm depth base) :
+theorem popWhile_spec (mm : MinMax) (depth : Nat) (base : List (Int × Int)) (h : MMInv mm depth base) :
     (popWhile depth mm).offsets = base ∧ (popWhile depth mm).lastDepth = depth ∧
     (popWhile depth mm).min = mm.min ∧ (popWhile depth mm).max = mm.max := by
   unfold popWhile
@@ -60,87 +64,119 @@ def Covered (mm : MinMax) (x : Int) : Prop := mm.min ≤ x ∧ x ≤ mm.max
 theorem Covered.mono {a b : MinMax} {x : Int} (h : Covered a x) (m : Mono a b) : Covered b x :=
   ⟨Int.le_trans m.1 h.1, Int.le_trans h.2 m.2⟩
 
-/-- The update covers both ends of the object's own repeat and changes nothing else. -/
-theorem updMinMax_spec (mm mm' : MinMax) (a : Int) (rep : Repeat) (h : updMinMax mm a rep = .ok mm') :
-    Mono mm mm' ∧ Covered mm' (mm.offsets.sum + a) ∧
-    Covered mm' (mm.offsets.sum + a + countMinus1AsI64 rep.count * rep.stride) ∧
+/-- The object's own lowest / highest address over its repeat. -/
+def ownLo (a : Int) (rep : Repeat) : Int := a + Min.min (countMinus1AsI64 rep.count * rep.stride) 0
+def ownHi (a : Int) (rep : Repeat) : Int := a + Max.max (countMinus1AsI64 rep.count * rep.stride) 0
+
+/-- The update covers the lowest address on top of the lowest base and the highest on top of the
+    highest base, returns the object's own extremes, and changes nothing else. -/
+theorem updMinMax_spec (mm mm' : MinMax) (a : Int) (rep : Repeat) (lo hi : Int)
+    (h : updMinMax mm a rep = .ok (mm', lo, hi)) :
+    Mono mm mm' ∧ lo = ownLo a rep ∧ hi = ownHi a rep ∧
+    mm'.min ≤ loSum mm.offsets + lo ∧ hiSum mm.offsets + hi ≤ mm'.max ∧
     mm'.offsets = mm.offsets ∧ mm'.lastDepth = mm.lastDepth := by
   unfold updMinMax at h
-  cases hs : sumChecked mm.offsets.reverse 0 with
-  | error e => rw [hs] at h; cases h
-  | ok total =>
-    rw [hs] at h
-    have htot : total = mm.offsets.sum := by
-      have := sumChecked_ok _ _ _ hs
-      rw [this, List.sum_reverse]; omega
+  cases hs1 : sumChecked (mm.offsets.map (·.1)).reverse 0 with
+  | error e => rw [hs1] at h; cases h
+  | ok minOff =>
+    rw [hs1] at h
     simp only at h
-    cases h1 : ck (total + a) with
-    | error e => rw [h1] at h; cases h
-    | ok a0 =>
-      rw [h1] at h
+    cases hs2 : sumChecked (mm.offsets.map (·.2)).reverse 0 with
+    | error e => rw [hs2] at h; cases h
+    | ok maxOff =>
+      rw [hs2] at h
       simp only at h
+      have hmin : minOff = loSum mm.offsets := by
+        have := sumChecked_ok _ _ _ hs1
+        rw [this, List.sum_reverse]; unfold loSum; omega
+      have hmax : maxOff = hiSum mm.offsets := by
+        have := sumChecked_ok _ _ _ hs2
+        rw [this, List.sum_reverse]; unfold hiSum; omega
       cases h2 : ck (countMinus1AsI64 rep.count * rep.stride) with
       | error e => rw [h2] at h; cases h
       | ok span =>
         rw [h2] at h
         simp only at h
-        cases h3 : ck (a0 + span) with
+        cases h3 : ck (a + Min.min span 0) with
         | error e => rw [h3] at h; cases h
-        | ok aMax =>
+        | ok lowest =>
           rw [h3] at h
-          simp only [Except.ok.injEq] at h
-          have e0 := (ck_ok h1).1
-          have e1 := (ck_ok h2).1
-          have e2 := (ck_ok h3).1
-          rw [← h]
-          unfold Mono Covered
-          simp only
-          refine ⟨⟨?_, ?_⟩, ⟨?_, ?_⟩, ⟨?_, ?_⟩, ?_, ?_⟩
-          all_goals first
-            | trivial
-            | rfl
-            | (simp only [Min.min, Max.max, Int.min_def, Int.max_def] <;> (repeat' split) <;> omega)
+          simp only at h
+          cases h4 : ck (a + Max.max span 0) with
+          | error e => rw [h4] at h; cases h
+          | ok highest =>
+            rw [h4] at h
+            simp only at h
+            cases h5 : ck (minOff + lowest) with
+            | error e => rw [h5] at h; cases h
+            | ok l =>
+              rw [h5] at h
+              simp only at h
+              cases h6 : ck (maxOff + highest) with
+              | error e => rw [h6] at h; cases h
+              | ok hh =>
+                rw [h6] at h
+                simp only [Except.ok.injEq, Prod.mk.injEq] at h
+                obtain ⟨hm, hlo, hhi⟩ := h
+                have e2 := (ck_ok h2).1
+                have e3 := (ck_ok h3).1
+                have e4 := (ck_ok h4).1
+                have e5 := (ck_ok h5).1
+                have e6 := (ck_ok h6).1
+                subst hlo hhi
+                rw [← hm]
+                unfold Mono ownLo ownHi
+                simp only
+                rw [← hmin, ← hmax, ← e2]
+                refine ⟨⟨?_, ?_⟩, e3, e4, ?_, ?_, ?_, ?_⟩
+                all_goals first
+                  | trivial
+                  | rfl
+                  | (simp only [Min.min, Max.max, Int.min_def, Int.max_def] <;> (repeat' split) <;> omega)
 
 /-- One callback invocation on a selected object. -/
 theorem minMaxStep_selected (filter : Object → Bool) (mm mm' : MinMax) (o : Object) (depth : Nat)
-    (base : List Int) (hinv : MMInv mm depth base) (hf : filter o = true)
+    (base : List (Int × Int)) (hinv : MMInv mm depth base) (hf : filter o = true)
     (h : minMaxStep filter mm (o, depth) = .ok mm') :
     Mono mm mm' ∧
-    (∀ a, o.address = some a → Covered mm' (base.sum + a) ∧
-      Covered mm' (base.sum + a + countMinus1AsI64 (o.repeat_.getD ⟨1, 0⟩).count * (o.repeat_.getD ⟨1, 0⟩).stride)) ∧
-    (∃ mm2, mm' = pushBlock o mm2 ∧ mm2.offsets = base ∧ mm2.lastDepth = depth) := by
+    (∀ a, o.address = some a →
+      mm'.min ≤ loSum base + ownLo a (o.repeat_.getD ⟨1, 0⟩) ∧ hiSum base + ownHi a (o.repeat_.getD ⟨1, 0⟩) ≤ mm'.max ∧
+      ∃ mm2, mm' = pushBlock o (ownLo a (o.repeat_.getD ⟨1, 0⟩)) (ownHi a (o.repeat_.getD ⟨1, 0⟩)) mm2 ∧
+        mm2.offsets = base ∧ mm2.lastDepth = depth) ∧
+    (o.address = none → mm'.offsets = base ∧ mm'.lastDepth = depth) := by
   obtain ⟨hp1, hp2, hp3, hp4⟩ := popWhile_spec mm depth base hinv
   unfold minMaxStep at h
   simp only [hf, Bool.not_true, Bool.false_eq_true, if_false] at h
   have hpm : Mono mm (popWhile depth mm) := ⟨by rw [hp3]; exact Int.le_refl _, by rw [hp4]; exact Int.le_refl _⟩
-  have hpush : ∀ m : MinMax, (pushBlock o m).min = m.min ∧ (pushBlock o m).max = m.max := by
-    intro m; unfold pushBlock; cases o <;> exact ⟨rfl, rfl⟩
+  have hpush : ∀ (m : MinMax) (x y : Int), (pushBlock o x y m).min = m.min ∧ (pushBlock o x y m).max = m.max := by
+    intro m x y; unfold pushBlock; cases o <;> exact ⟨rfl, rfl⟩
   cases ha : o.address with
   | none =>
     simp only [ha, Except.ok.injEq] at h
     rw [← h]
-    refine ⟨⟨by rw [(hpush _).1, hp3]; exact Int.le_refl _, by rw [(hpush _).2, hp4]; exact Int.le_refl _⟩,
-            (fun a h' => by cases h'), ⟨_, rfl, hp1, hp2⟩⟩
+    exact ⟨hpm, (fun a h' => by cases h'), fun _ => ⟨hp1, hp2⟩⟩
   | some a =>
     simp only [ha] at h
     cases hu : updMinMax (popWhile depth mm) a (o.repeat_.getD ⟨1, 0⟩) with
     | error e => rw [hu] at h; cases h
-    | ok mm2 =>
+    | ok r =>
+      obtain ⟨mm2, lo, hi⟩ := r
       rw [hu] at h
       simp only [Except.ok.injEq] at h
-      obtain ⟨m1, c1, c2, o1, o2⟩ := updMinMax_spec _ _ _ _ hu
+      obtain ⟨m1, elo, ehi, c1, c2, o1, o2⟩ := updMinMax_spec _ _ _ _ _ _ hu
       rw [hp1] at c1 c2
       rw [← h]
-      have hm2 : Mono mm2 (pushBlock o mm2) :=
-        ⟨by rw [(hpush _).1]; exact Int.le_refl _, by rw [(hpush _).2]; exact Int.le_refl _⟩
-      refine ⟨(hpm.trans m1).trans hm2, ?_, ⟨mm2, rfl, by rw [o1, hp1], by rw [o2, hp2]⟩⟩
+      have hm2 : Mono mm2 (pushBlock o lo hi mm2) :=
+        ⟨by rw [(hpush _ _ _).1]; exact Int.le_refl _, by rw [(hpush _ _ _).2]; exact Int.le_refl _⟩
+      refine ⟨(hpm.trans m1).trans hm2, ?_, fun hh => by cases hh⟩
       intro a' ha'
       cases ha'
-      exact ⟨c1.mono hm2, c2.mono hm2⟩
+      refine ⟨by rw [(hpush _ _ _).1, ← elo]; exact c1, by rw [(hpush _ _ _).2, ← ehi]; exact c2,
+              mm2, by rw [elo, ehi], by rw [o1, hp1], by rw [o2, hp2]⟩
 
 /-- A callback invocation on an object the filter does not select only pops. -/
 theorem minMaxStep_unselected (filter : Object → Bool) (mm mm' : MinMax) (o : Object) (depth : Nat)
-    (base : List Int) (hinv : MMInv mm depth base) (hf : filter o = false)
+    (base : List (Int × Int)) (hinv : MMInv mm depth base) (hf : filter o = false)
     (h : minMaxStep filter mm (o, depth) = .ok mm') :
     Mono mm mm' ∧ mm'.offsets = base ∧ mm'.lastDepth = depth := by
   obtain ⟨hp1, hp2, hp3, hp4⟩ := popWhile_spec mm depth base hinv
@@ -149,86 +185,85 @@ theorem minMaxStep_unselected (filter : Object → Bool) (mm mm' : MinMax) (o : 
   rw [← h]
   exact ⟨⟨by rw [hp3]; exact Int.le_refl _, by rw [hp4]; exact Int.le_refl _⟩, hp1, hp2⟩
 
-end DDV.Gen
-
-namespace DDV.Gen
-set_option linter.unusedVariables false
-set_option linter.unusedSimpArgs false
-
-/-- All instances of one repeated object lie between its two ends. -/
-theorem covered_between (mm : MinMax) (a s : Int) (n i : Nat) (hi : i < n)
-    (h0 : Covered mm a) (h1 : Covered mm (a + ((n - 1 : Nat) : Int) * s)) : Covered mm (a + (i : Int) * s) := by
-  unfold Covered at *
-  have hin : (i : Int) ≤ ((n - 1 : Nat) : Int) := by omega
-  have hi0 : (0 : Int) ≤ (i : Int) := by omega
-  by_cases hs : 0 ≤ s
-  · have h2 : (i : Int) * s ≤ ((n - 1 : Nat) : Int) * s := Int.mul_le_mul_of_nonneg_right hin hs
-    have h3 : 0 ≤ (i : Int) * s := Int.mul_nonneg hi0 hs
-    omega
-  · have hs' : s ≤ 0 := by omega
-    have h2 : ((n - 1 : Nat) : Int) * s ≤ (i : Int) * s := Int.mul_le_mul_of_nonpos_right hin hs'
-    have h3 : (i : Int) * s ≤ 0 := Int.mul_nonpos_of_nonneg_of_nonpos hi0 hs'
-    omega
-
 theorem countMinus1_small (n : Nat) (h : n - 1 < 2 ^ 63) : countMinus1AsI64 n = ((n - 1 : Nat) : Int) := by
   unfold countMinus1AsI64
   simp [h]
 
-/- What the analysis bounds: for every selected object with an address, all of
-   `base + address + i × stride` (i below its own repeat count), where `base` is the sum of the
-   `address_offset`s of the enclosing blocks (their repeat strides are *not* included: finding F6a)
-   and only `Object::Block`s are descended into (children behind a block ref are not: finding F6b). -/
+/-- Every instance of a repeated object lies between its own lowest and highest address. -/
+theorem own_between (a : Int) (rep : Repeat) (i : Nat) (hi : i < rep.count) (hs : rep.count - 1 < 2 ^ 63) :
+    ownLo a rep ≤ a + (i : Int) * rep.stride ∧ a + (i : Int) * rep.stride ≤ ownHi a rep := by
+  unfold ownLo ownHi
+  rw [countMinus1_small _ hs]
+  have hin : (i : Int) ≤ ((rep.count - 1 : Nat) : Int) := by omega
+  have hi0 : (0 : Int) ≤ (i : Int) := by omega
+  by_cases hst : 0 ≤ rep.stride
+  · have h2 : (i : Int) * rep.stride ≤ ((rep.count - 1 : Nat) : Int) * rep.stride := Int.mul_le_mul_of_nonneg_right hin hst
+    have h3 : 0 ≤ (i : Int) * rep.stride := Int.mul_nonneg hi0 hst
+    simp only [Min.min, Max.max, Int.min_def, Int.max_def]
+    constructor <;> (repeat' split) <;> omega
+  · have hs' : rep.stride ≤ 0 := by omega
+    have h2 : ((rep.count - 1 : Nat) : Int) * rep.stride ≤ (i : Int) * rep.stride := Int.mul_le_mul_of_nonpos_right hin hs'
+    have h3 : (i : Int) * rep.stride ≤ 0 := Int.mul_nonpos_of_nonneg_of_nonpos hi0 hs'
+    simp only [Min.min, Max.max, Int.min_def, Int.max_def]
+    constructor <;> (repeat' split) <;> omega
+
+/- What the analysis bounds: for every selected object with an address and every base `b` the
+   enclosing blocks' repeats can produce (`bl ≤ b ≤ bh`), all of `b + address + i × stride`
+   (i below its own repeat count); a block's children are bounded over the range of bases the
+   block's own repeat produces. Only `Object::Block`s are descended into (children behind a block
+   ref are not: finding F6b). -/
 mutual
-def BoundsObj (filter : Object → Bool) (mn mx : Int) (base : Int) : Object → Prop
+def BoundsObj (filter : Object → Bool) (mn mx : Int) (bl bh : Int) : Object → Prop
   | .block h os =>
-    (∀ i, i < (h.repeat_.getD ⟨1, 0⟩).count →
-       mn ≤ base + h.addressOffset + (i : Int) * (h.repeat_.getD ⟨1, 0⟩).stride ∧
-       base + h.addressOffset + (i : Int) * (h.repeat_.getD ⟨1, 0⟩).stride ≤ mx) ∧
-    BoundsList filter mn mx (base + h.addressOffset) os
+    (∀ b, bl ≤ b → b ≤ bh → ∀ i, i < (h.repeat_.getD ⟨1, 0⟩).count →
+       mn ≤ b + h.addressOffset + (i : Int) * (h.repeat_.getD ⟨1, 0⟩).stride ∧
+       b + h.addressOffset + (i : Int) * (h.repeat_.getD ⟨1, 0⟩).stride ≤ mx) ∧
+    BoundsList filter mn mx (bl + ownLo h.addressOffset (h.repeat_.getD ⟨1, 0⟩))
+      (bh + ownHi h.addressOffset (h.repeat_.getD ⟨1, 0⟩)) os
   | .register r => filter (.register r) = true →
-      ∀ i, i < (r.repeat_.getD ⟨1, 0⟩).count →
-        mn ≤ base + r.address + (i : Int) * (r.repeat_.getD ⟨1, 0⟩).stride ∧
-        base + r.address + (i : Int) * (r.repeat_.getD ⟨1, 0⟩).stride ≤ mx
+      ∀ b, bl ≤ b → b ≤ bh → ∀ i, i < (r.repeat_.getD ⟨1, 0⟩).count →
+        mn ≤ b + r.address + (i : Int) * (r.repeat_.getD ⟨1, 0⟩).stride ∧
+        b + r.address + (i : Int) * (r.repeat_.getD ⟨1, 0⟩).stride ≤ mx
   | .command c => filter (.command c) = true →
-      ∀ i, i < (c.repeat_.getD ⟨1, 0⟩).count →
-        mn ≤ base + c.address + (i : Int) * (c.repeat_.getD ⟨1, 0⟩).stride ∧
-        base + c.address + (i : Int) * (c.repeat_.getD ⟨1, 0⟩).stride ≤ mx
-  | .buffer b => filter (.buffer b) = true → mn ≤ base + b.address ∧ base + b.address ≤ mx
+      ∀ b, bl ≤ b → b ≤ bh → ∀ i, i < (c.repeat_.getD ⟨1, 0⟩).count →
+        mn ≤ b + c.address + (i : Int) * (c.repeat_.getD ⟨1, 0⟩).stride ∧
+        b + c.address + (i : Int) * (c.repeat_.getD ⟨1, 0⟩).stride ≤ mx
+  | .buffer bf => filter (.buffer bf) = true → ∀ b, bl ≤ b → b ≤ bh → mn ≤ b + bf.address ∧ b + bf.address ≤ mx
   | .ref r => filter (.ref r) = true → ∀ a, (Object.ref r).address = some a →
-      ∀ i, i < ((Object.ref r).repeat_.getD ⟨1, 0⟩).count →
-        mn ≤ base + a + (i : Int) * ((Object.ref r).repeat_.getD ⟨1, 0⟩).stride ∧
-        base + a + (i : Int) * ((Object.ref r).repeat_.getD ⟨1, 0⟩).stride ≤ mx
-def BoundsList (filter : Object → Bool) (mn mx : Int) (base : Int) : List Object → Prop
+      ∀ b, bl ≤ b → b ≤ bh → ∀ i, i < ((Object.ref r).repeat_.getD ⟨1, 0⟩).count →
+        mn ≤ b + a + (i : Int) * ((Object.ref r).repeat_.getD ⟨1, 0⟩).stride ∧
+        b + a + (i : Int) * ((Object.ref r).repeat_.getD ⟨1, 0⟩).stride ≤ mx
+def BoundsList (filter : Object → Bool) (mn mx : Int) (bl bh : Int) : List Object → Prop
   | [] => True
-  | o :: os => BoundsObj filter mn mx base o ∧ BoundsList filter mn mx base os
+  | o :: os => BoundsObj filter mn mx bl bh o ∧ BoundsList filter mn mx bl bh os
 end
 
 mutual
 theorem boundsObj_mono (filter : Object → Bool) (mn mx mn' mx' : Int) (h1 : mn' ≤ mn) (h2 : mx ≤ mx') :
-    ∀ (o : Object) (base : Int), BoundsObj filter mn mx base o → BoundsObj filter mn' mx' base o
-  | .block h os, base, hb => by
+    ∀ (o : Object) (bl bh : Int), BoundsObj filter mn mx bl bh o → BoundsObj filter mn' mx' bl bh o
+  | .block h os, bl, bh, hb => by
     unfold BoundsObj at hb ⊢
-    exact ⟨fun i hi => ⟨by have := hb.1 i hi; omega, by have := hb.1 i hi; omega⟩,
-           boundsList_mono filter mn mx mn' mx' h1 h2 os _ hb.2⟩
-  | .register r, base, hb => by
+    exact ⟨fun b hb1 hb2 i hi => ⟨by have := hb.1 b hb1 hb2 i hi; omega, by have := hb.1 b hb1 hb2 i hi; omega⟩,
+           boundsList_mono filter mn mx mn' mx' h1 h2 os _ _ hb.2⟩
+  | .register r, bl, bh, hb => by
     unfold BoundsObj at hb ⊢
-    intro hf i hi; have := hb hf i hi; exact ⟨by omega, by omega⟩
-  | .command c, base, hb => by
+    intro hf b hb1 hb2 i hi; have := hb hf b hb1 hb2 i hi; exact ⟨by omega, by omega⟩
+  | .command c, bl, bh, hb => by
     unfold BoundsObj at hb ⊢
-    intro hf i hi; have := hb hf i hi; exact ⟨by omega, by omega⟩
-  | .buffer b, base, hb => by
+    intro hf b hb1 hb2 i hi; have := hb hf b hb1 hb2 i hi; exact ⟨by omega, by omega⟩
+  | .buffer bf, bl, bh, hb => by
     unfold BoundsObj at hb ⊢
-    intro hf; have := hb hf; exact ⟨by omega, by omega⟩
-  | .ref r, base, hb => by
+    intro hf b hb1 hb2; have := hb hf b hb1 hb2; exact ⟨by omega, by omega⟩
+  | .ref r, bl, bh, hb => by
     unfold BoundsObj at hb ⊢
-    intro hf a ha i hi; have := hb hf a ha i hi; exact ⟨by omega, by omega⟩
+    intro hf a ha b hb1 hb2 i hi; have := hb hf a ha b hb1 hb2 i hi; exact ⟨by omega, by omega⟩
 theorem boundsList_mono (filter : Object → Bool) (mn mx mn' mx' : Int) (h1 : mn' ≤ mn) (h2 : mx ≤ mx') :
-    ∀ (os : List Object) (base : Int), BoundsList filter mn mx base os → BoundsList filter mn' mx' base os
-  | [], base, hb => by unfold BoundsList; trivial
-  | o :: os, base, hb => by
+    ∀ (os : List Object) (bl bh : Int), BoundsList filter mn mx bl bh os → BoundsList filter mn' mx' bl bh os
+  | [], bl, bh, hb => by unfold BoundsList; trivial
+  | o :: os, bl, bh, hb => by
     unfold BoundsList at hb ⊢
-    exact ⟨boundsObj_mono filter mn mx mn' mx' h1 h2 o base hb.1,
-           boundsList_mono filter mn mx mn' mx' h1 h2 os base hb.2⟩
+    exact ⟨boundsObj_mono filter mn mx mn' mx' h1 h2 o bl bh hb.1,
+           boundsList_mono filter mn mx mn' mx' h1 h2 os bl bh hb.2⟩
 end
 
 /-- Repeat counts the `u64 → i64` cast does not wrap (always the case for counts one can emit). -/
@@ -243,49 +278,57 @@ def SmallCountsList : List Object → Prop
   | o :: os => SmallCounts o ∧ SmallCountsList os
 end
 
-end DDV.Gen
-
-namespace DDV.Gen
-set_option linter.unusedVariables false
-set_option linter.unusedSimpArgs false
-
-theorem pushBlock_leaf (o : Object) (mm : MinMax) (h : ∀ hd os, o ≠ .block hd os) : pushBlock o mm = mm := by
+theorem pushBlock_leaf (o : Object) (x y : Int) (mm : MinMax) (h : ∀ hd os, o ≠ .block hd os) :
+    pushBlock o x y mm = mm := by
   unfold pushBlock
   cases o with
   | block hd os => exact absurd rfl (h hd os)
   | _ => rfl
 
-theorem inv_of_eq (mm : MinMax) (depth : Nat) (base : List Int) (h1 : mm.offsets = base) (h2 : mm.lastDepth = depth)
+theorem inv_of_eq (mm : MinMax) (depth : Nat) (base : List (Int × Int)) (h1 : mm.offsets = base) (h2 : mm.lastDepth = depth)
     (hl : base.length = depth + 1) : MMInv mm depth base :=
   ⟨by omega, by rw [h1, h2]; exact hl, by rw [h2, Nat.sub_self, List.drop_zero]; exact h1⟩
 
 /-- One leaf (non-block object): the invariant is kept, min/max only widen, and — if selected —
-    every instance of the object is within the bounds reached. -/
-theorem leaf_step (filter : Object → Bool) (mm mm' : MinMax) (o : Object) (depth : Nat) (base : List Int)
+    every instance of the object at every reachable base is within the bounds reached. -/
+theorem leaf_step (filter : Object → Bool) (mm mm' : MinMax) (o : Object) (depth : Nat) (base : List (Int × Int))
     (hleaf : ∀ hd os, o ≠ .block hd os) (hinv : MMInv mm depth base) (hl : base.length = depth + 1)
     (hsmall : SmallCount o) (h : minMaxStep filter mm (o, depth) = .ok mm') :
     MMInv mm' depth base ∧ Mono mm mm' ∧
-    (filter o = true → ∀ a, o.address = some a → ∀ i, i < (o.repeat_.getD ⟨1, 0⟩).count →
-      Covered mm' (base.sum + a + (i : Int) * (o.repeat_.getD ⟨1, 0⟩).stride)) := by
+    (filter o = true → ∀ a, o.address = some a → ∀ b, loSum base ≤ b → b ≤ hiSum base →
+      ∀ i, i < (o.repeat_.getD ⟨1, 0⟩).count →
+      Covered mm' (b + a + (i : Int) * (o.repeat_.getD ⟨1, 0⟩).stride)) := by
   cases hf : filter o with
   | false =>
     obtain ⟨m, o1, o2⟩ := minMaxStep_unselected filter mm mm' o depth base hinv hf h
     exact ⟨inv_of_eq _ _ _ o1 o2 hl, m, fun hh => by cases hh⟩
   | true =>
-    obtain ⟨m, hc, ⟨mm2, e, o1, o2⟩⟩ := minMaxStep_selected filter mm mm' o depth base hinv hf h
-    rw [pushBlock_leaf o mm2 hleaf] at e
-    subst e
-    refine ⟨inv_of_eq _ _ _ o1 o2 hl, m, fun _ a ha i hi => ?_⟩
-    obtain ⟨c1, c2⟩ := hc a ha
-    rw [countMinus1_small _ hsmall] at c2
-    exact covered_between mm' (base.sum + a) _ _ i hi c1 c2
+    obtain ⟨m, hc, hnone⟩ := minMaxStep_selected filter mm mm' o depth base hinv hf h
+    cases ha : o.address with
+    | none =>
+      obtain ⟨o1, o2⟩ := hnone ha
+      exact ⟨inv_of_eq _ _ _ o1 o2 hl, m, fun _ a ha' => by cases ha'⟩
+    | some a =>
+      obtain ⟨c1, c2, mm2, e, o1, o2⟩ := hc a ha
+      rw [pushBlock_leaf o _ _ mm2 hleaf] at e
+      subst e
+      refine ⟨inv_of_eq _ _ _ o1 o2 hl, m, fun _ a' ha' b hb1 hb2 i hi => ?_⟩
+      cases ha'
+      obtain ⟨w1, w2⟩ := own_between a (o.repeat_.getD ⟨1, 0⟩) i hi hsmall
+      unfold Covered
+      constructor <;> omega
+
+theorem loSum_cons (x : Int × Int) (base : List (Int × Int)) : loSum (x :: base) = loSum base + x.1 := by
+  unfold loSum; simp [List.sum_cons]; omega
+theorem hiSum_cons (x : Int × Int) (base : List (Int × Int)) : hiSum (x :: base) = hiSum base + x.2 := by
+  unfold hiSum; simp [List.sum_cons]; omega
 
 mutual
 theorem mmWalkObj_spec (filter : Object → Bool) (hfb : ∀ hd os, filter (.block hd os) = true) :
-    ∀ (o : Object) (depth : Nat) (mm mm' : MinMax) (base : List Int),
+    ∀ (o : Object) (depth : Nat) (mm mm' : MinMax) (base : List (Int × Int)),
       MMInv mm depth base → base.length = depth + 1 → SmallCounts o →
       mmWalkObj filter depth mm o = .ok mm' →
-      MMInv mm' depth base ∧ Mono mm mm' ∧ BoundsObj filter mm'.min mm'.max base.sum o
+      MMInv mm' depth base ∧ Mono mm mm' ∧ BoundsObj filter mm'.min mm'.max (loSum base) (hiSum base) o
   | .block hd os, depth, mm, mm', base, hinv, hl, hsm, h => by
     unfold mmWalkObj at h
     unfold SmallCounts at hsm
@@ -294,11 +337,15 @@ theorem mmWalkObj_spec (filter : Object → Bool) (hfb : ∀ hd os, filter (.blo
     | ok mm1 =>
       rw [hs] at h
       simp only at h
-      obtain ⟨m1, hc, ⟨mm2, e, o1, o2⟩⟩ := minMaxStep_selected filter mm mm1 (.block hd os) depth base hinv (hfb hd os) hs
-      have hinv1 : MMInv mm1 (depth + 1) (hd.addressOffset :: base) := by
+      obtain ⟨m1, hc, _⟩ := minMaxStep_selected filter mm mm1 (.block hd os) depth base hinv (hfb hd os) hs
+      obtain ⟨c1, c2, mm2, e, o1, o2⟩ := hc hd.addressOffset rfl
+      have hrep : (Object.block hd os).repeat_ = hd.repeat_ := rfl
+      rw [hrep] at c1 c2 e
+      have hinv1 : MMInv mm1 (depth + 1) ((ownLo hd.addressOffset (hd.repeat_.getD ⟨1, 0⟩),
+          ownHi hd.addressOffset (hd.repeat_.getD ⟨1, 0⟩)) :: base) := by
         rw [e]; unfold pushBlock
         exact inv_of_eq _ _ _ (by simp [o1]) (by simp [o2]) (by simp [hl])
-      obtain ⟨i2, m2, b2⟩ := mmWalkList_spec filter hfb os (depth + 1) mm1 mm' (hd.addressOffset :: base)
+      obtain ⟨i2, m2, b2⟩ := mmWalkList_spec filter hfb os (depth + 1) mm1 mm' _
         hinv1 (by simp [hl]) hsm.2 h
       refine ⟨?_, m1.trans m2, ?_⟩
       · refine ⟨by have := i2.ge; omega, i2.len, ?_⟩
@@ -307,48 +354,45 @@ theorem mmWalkObj_spec (filter : Object → Bool) (hfb : ∀ hd os, filter (.blo
         rw [this, ← List.drop_drop, ht]; rfl
       · unfold BoundsObj
         constructor
-        · intro i hi
-          obtain ⟨c1, c2⟩ := hc hd.addressOffset rfl
-          have hcnt : countMinus1AsI64 ((Object.block hd os).repeat_.getD ⟨1, 0⟩).count =
-              ((((Object.block hd os).repeat_.getD ⟨1, 0⟩).count - 1 : Nat) : Int) := countMinus1_small _ hsm.1
-          rw [hcnt] at c2
-          have := (covered_between mm1 (base.sum + hd.addressOffset) _ _ i hi c1 c2).mono m2
-          exact this
-        · have : (hd.addressOffset :: base).sum = base.sum + hd.addressOffset := by
-            simp [List.sum_cons]; omega
-          rw [this] at b2; exact b2
+        · intro b hb1 hb2 i hi
+          have hsc : (hd.repeat_.getD ⟨1, 0⟩).count - 1 < 2 ^ 63 := hsm.1
+          obtain ⟨w1, w2⟩ := own_between hd.addressOffset (hd.repeat_.getD ⟨1, 0⟩) i hi hsc
+          have m21 := m2.1
+          have m22 := m2.2
+          constructor <;> omega
+        · rw [loSum_cons, hiSum_cons] at b2; exact b2
   | .register r, depth, mm, mm', base, hinv, hl, hsm, h => by
     unfold mmWalkObj at h
     obtain ⟨i1, m1, c1⟩ := leaf_step filter mm mm' (.register r) depth base (by intro _ _ hh; cases hh) hinv hl hsm h
     refine ⟨i1, m1, ?_⟩
     unfold BoundsObj
-    intro hf i hi; exact c1 hf r.address rfl i hi
+    intro hf b hb1 hb2 i hi; exact c1 hf r.address rfl b hb1 hb2 i hi
   | .command c, depth, mm, mm', base, hinv, hl, hsm, h => by
     unfold mmWalkObj at h
     obtain ⟨i1, m1, c1⟩ := leaf_step filter mm mm' (.command c) depth base (by intro _ _ hh; cases hh) hinv hl hsm h
     refine ⟨i1, m1, ?_⟩
     unfold BoundsObj
-    intro hf i hi; exact c1 hf c.address rfl i hi
-  | .buffer b, depth, mm, mm', base, hinv, hl, hsm, h => by
+    intro hf b hb1 hb2 i hi; exact c1 hf c.address rfl b hb1 hb2 i hi
+  | .buffer bf, depth, mm, mm', base, hinv, hl, hsm, h => by
     unfold mmWalkObj at h
-    obtain ⟨i1, m1, c1⟩ := leaf_step filter mm mm' (.buffer b) depth base (by intro _ _ hh; cases hh) hinv hl hsm h
+    obtain ⟨i1, m1, c1⟩ := leaf_step filter mm mm' (.buffer bf) depth base (by intro _ _ hh; cases hh) hinv hl hsm h
     refine ⟨i1, m1, ?_⟩
     unfold BoundsObj
-    intro hf
-    have := c1 hf b.address rfl 0 (by show 0 < 1; exact Nat.one_pos)
+    intro hf b hb1 hb2
+    have := c1 hf bf.address rfl b hb1 hb2 0 (by show 0 < 1; exact Nat.one_pos)
     simpa [Covered] using this
   | .ref r, depth, mm, mm', base, hinv, hl, hsm, h => by
     unfold mmWalkObj at h
     obtain ⟨i1, m1, c1⟩ := leaf_step filter mm mm' (.ref r) depth base (by intro _ _ hh; cases hh) hinv hl hsm h
     refine ⟨i1, m1, ?_⟩
     unfold BoundsObj
-    intro hf a ha i hi; exact c1 hf a ha i hi
+    intro hf a ha b hb1 hb2 i hi; exact c1 hf a ha b hb1 hb2 i hi
 
 theorem mmWalkList_spec (filter : Object → Bool) (hfb : ∀ hd os, filter (.block hd os) = true) :
-    ∀ (os : List Object) (depth : Nat) (mm mm' : MinMax) (base : List Int),
+    ∀ (os : List Object) (depth : Nat) (mm mm' : MinMax) (base : List (Int × Int)),
       MMInv mm depth base → base.length = depth + 1 → SmallCountsList os →
       mmWalkList filter depth mm os = .ok mm' →
-      MMInv mm' depth base ∧ Mono mm mm' ∧ BoundsList filter mm'.min mm'.max base.sum os
+      MMInv mm' depth base ∧ Mono mm mm' ∧ BoundsList filter mm'.min mm'.max (loSum base) (hiSum base) os
   | [], depth, mm, mm', base, hinv, hl, hsm, h => by
     unfold mmWalkList at h
     rw [← Except.ok.inj h]
@@ -365,24 +409,25 @@ theorem mmWalkList_spec (filter : Object → Bool) (hfb : ∀ hd os, filter (.bl
       obtain ⟨i2, m2, b2⟩ := mmWalkList_spec filter hfb os depth mm1 mm' base i1 hl hsm.2 h
       refine ⟨i2, m1.trans m2, ?_⟩
       unfold BoundsList
-      exact ⟨boundsObj_mono filter _ _ _ _ m2.1 m2.2 o _ b1, b2⟩
+      exact ⟨boundsObj_mono filter _ _ _ _ m2.1 m2.2 o _ _ b1, b2⟩
 end
 
 /-- **What the analysis guarantees.** If `find_min_max_addresses` returns `(mn, mx)` for a filter
-    that selects blocks, then `mn ≤ 0 ≤ mx` and every instance of every selected object lies in
-    `[mn, mx]`, where an instance's base is the sum of its enclosing blocks' offsets. -/
+    that selects blocks, then `mn ≤ 0 ≤ mx` and every instance of every selected object — at every
+    combination of its own repeat index and the repeat indices of its enclosing blocks — lies in
+    `[mn, mx]`. -/
 theorem findMinMax_bounds (filter : Object → Bool) (hfb : ∀ hd os, filter (.block hd os) = true)
     (os : List Object) (hsm : SmallCountsList os) (mn mx : Int) (h : findMinMax os filter = .ok (mn, mx)) :
-    mn ≤ 0 ∧ 0 ≤ mx ∧ BoundsList filter mn mx 0 os := by
+    mn ≤ 0 ∧ 0 ≤ mx ∧ BoundsList filter mn mx 0 0 os := by
   unfold findMinMax at h
   cases hw : mmWalkList filter 0 {} os with
   | error e => rw [hw] at h; cases h
   | ok mm =>
     rw [hw] at h
     simp only [Except.ok.injEq, Prod.mk.injEq] at h
-    obtain ⟨i1, m1, b1⟩ := mmWalkList_spec filter hfb os 0 {} mm [0]
+    obtain ⟨i1, m1, b1⟩ := mmWalkList_spec filter hfb os 0 {} mm [(0, 0)]
       ⟨Nat.le_refl _, rfl, rfl⟩ rfl hsm hw
     rw [← h.1, ← h.2]
-    exact ⟨m1.1, m1.2, by simpa using b1⟩
+    exact ⟨m1.1, m1.2, by simpa [loSum, hiSum] using b1⟩
 
 end DDV.Gen
